@@ -6,6 +6,17 @@ pub struct Vec<T> { a: [T; CAP], n: usize }
 impl<T: Copy + Default> Vec<T> {
     pub fn new() -> Self { Vec { a: [T::default(); CAP], n: 0 } }
     pub fn push(&mut self, x: T) { self.a[self.n] = x; self.n += 1; }
+    pub fn pop(&mut self) -> Option<T> {
+        if self.n == 0 { None } else { self.n -= 1; Some(self.a[self.n]) }
+    }
+    pub fn swap_remove(&mut self, i: usize) -> T {
+        let x = self.a[..self.n][i];
+        self.a[i] = self.a[self.n - 1];
+        self.n -= 1;
+        x
+    }
+    pub fn clear(&mut self) { self.n = 0; }
+    pub fn truncate(&mut self, len: usize) { if len < self.n { self.n = len; } }
     pub fn remove(&mut self, i: usize) -> T {
         let x = self.a[i];
         let mut j = i;
